@@ -13,8 +13,8 @@ of the workspace crates).  A later tree may differ from it by behaviour-preservi
 After this, a rule looking at `PduRx::receive_frame` sees the same calls, switches and assignments whether or not
 part of it now lives in `PduRx::store_response`.  Nothing here decides a property; it only normalises the program
 the rules look at, and everything it did is listed in the evidence (`analysed.helpers_inlined / renamed`).
-Async helpers (a new `async fn`) are not inlined (their body is a separate coroutine); rules then see an opaque
-call, as before."""
+An awaited `async fn` helper is inlined too: its coroutine body replaces the poll of its future (parameters become
+fresh locals assigned at the call, `return v` becomes `poll_result = Poll::Ready(v)`)."""
 import copy
 import json
 import os
@@ -118,7 +118,7 @@ def inline_one(caller, bi, callee):
         caller.setdefault("dbg", []).append({"n": e["n"], "place": _place(pl, lm)})
     cont = T.get("t")
     for blk in callee["blocks"]:
-        nb = {"cleanup": blk.get("cleanup", False), "stmts": [_stmt(s, lm) for s in blk["stmts"]]}
+        nb = {"cleanup": blk.get("cleanup", False), "stmts": [_stmt(s, lm) for s in blk["stmts"]], "inl": callee["path"]}
         t = blk["term"]
         if t["k"] == "return":
             nb["stmts"].append({"k": "assign", "place": copy.deepcopy(T["dest"]), "rv": {"k": "use", "a": [{"move": {"l": lm(0), "p": []}}]}, "sp": T.get("sp"), "expn": None, "inlined_ret": callee["path"]})
@@ -172,13 +172,20 @@ def transform(raw):
         for bd in c["bodies"]:
             bodies[norm(bd["path"])] = bd
     helpers = {}
+    async_helpers = {}
     for u in sorted(unknown):
         bd = bodies.get(u)
         if bd is None:
             continue
-        is_async = any(x.get("coroutine") and x.get("parent") and norm(x["parent"]) == u for x in raw[present[u]["crate"]]["bodies"])
-        if is_async or len(bd["blocks"]) > MAX_BLOCKS:
-            rep["not_inlined"].append(u + (" (async)" if is_async else " (too large)"))
+        coros = [x for x in raw[present[u]["crate"]]["bodies"] if x.get("coroutine") and x.get("parent") and norm(x["parent"]) == u]
+        if coros:
+            if len(coros) == 1 and len(coros[0]["blocks"]) <= MAX_BLOCKS:
+                async_helpers[u] = (bd, coros[0])
+            else:
+                rep["not_inlined"].append(u + " (async, too large)")
+            continue
+        if len(bd["blocks"]) > MAX_BLOCKS:
+            rep["not_inlined"].append(u + " (too large)")
             continue
         helpers[u] = bd
     if helpers:
@@ -223,9 +230,269 @@ def transform(raw):
             if cname.endswith("#test"):
                 continue
             c["bodies"] = [bd for bd in c["bodies"] if not (norm(bd["path"]) in helpers and norm(bd["path"]) not in still_called and any(x.startswith(norm(bd["path"]) + " into ") for x in rep["inlined"]))]
+    if async_helpers:
+        done = set()
+        failed = set()
+        for depth in range(MAX_DEPTH):
+            changed = False
+            for cname, c in raw.items():
+                if cname.endswith("#test"):
+                    continue
+                for bd in c["bodies"]:
+                    me = norm(bd["path"])
+                    for bi in range(len(bd["blocks"])):
+                        t = bd["blocks"][bi]["term"]
+                        if t["k"] != "call":
+                            continue
+                        tgt = None
+                        for k in ("res", "callee"):
+                            if t.get(k) and norm(t[k]) in async_helpers:
+                                tgt = norm(t[k])
+                                break
+                        if tgt is None or me == tgt or me == norm(async_helpers[tgt][1]["path"]) or len(bd["blocks"]) > 6 * MAX_BLOCKS:
+                            continue
+                        if inline_async_one(bd, bi, async_helpers[tgt][1]):
+                            rep["inlined"].append("%s (async) into %s" % (tgt, me))
+                            done.add(tgt)
+                            cp = norm(async_helpers[tgt][1]["path"])
+                            for x in c["bodies"]:
+                                if x is not bd and norm(x["path"]) not in (tgt, cp) and norm(x.get("root", "")) == tgt:
+                                    x["root"] = bd["root"]
+                            changed = True
+                        else:
+                            failed.add(tgt)
+            if not changed:
+                break
+        for tgt in failed:
+            rep["not_inlined"].append(tgt + " (async: await pattern not recognised at some call site)")
+        gone = {t for t in done if t not in failed}
+        gone_paths = gone | {norm(async_helpers[t][1]["path"]) for t in gone}
+        for cname, c in raw.items():
+            if cname.endswith("#test"):
+                continue
+            c["bodies"] = [bd for bd in c["bodies"] if norm(bd["path"]) not in gone_paths]
     for c in raw.values():
         c.setdefault("_inline", rep)
     return rep
+
+
+# ------------------------------------------------------------------------------------------------
+# async helpers: `helper(args).await` inside another async body
+
+
+def _future_locals(caller, f):
+    """Locals the future created in `f` travels through before it is polled (into_future, plain moves)."""
+    S = {f}
+    changed = True
+    while changed:
+        changed = False
+        for blk in caller["blocks"]:
+            for st in blk["stmts"]:
+                if st["k"] == "assign" and st["rv"]["k"] == "use" and not st["place"]["p"]:
+                    a = st["rv"]["a"][0]
+                    pl = a.get("move") or a.get("copy")
+                    if pl and not pl["p"] and pl["l"] in S and st["place"]["l"] not in S:
+                        S.add(st["place"]["l"])
+                        changed = True
+            t = blk["term"]
+            if t["k"] == "call" and (t.get("callee") or "").endswith("IntoFuture::into_future") and t["args"]:
+                a = t["args"][0]
+                pl = a.get("move") or a.get("copy")
+                if pl and not pl["p"] and pl["l"] in S and t["dest"]["l"] not in S:
+                    S.add(t["dest"]["l"])
+                    changed = True
+    return S
+
+
+def _poll_of(caller, S, coro_path):
+    """Index of the block whose terminator polls the coroutine `coro_path` through a future local in S."""
+    refs = {}
+    for blk in caller["blocks"]:
+        for st in blk["stmts"]:
+            if st["k"] == "assign" and st["rv"]["k"] in ("ref", "rawptr") and not st["place"]["p"]:
+                src = st["rv"]["place"]["l"]
+                refs[st["place"]["l"]] = refs.get(src, src) if st["rv"]["place"]["p"] == ["*"] else src
+    for _ in range(3):
+        for k, v in list(refs.items()):
+            if v in refs:
+                refs[k] = refs[v]
+    pins = {}
+    for blk in caller["blocks"]:
+        t = blk["term"]
+        if t["k"] == "call" and (t.get("callee") or "").endswith("::new_unchecked") and t["args"]:
+            pl = t["args"][0].get("move") or t["args"][0].get("copy")
+            if pl and not pl["p"]:
+                pins[t["dest"]["l"]] = refs.get(pl["l"], pl["l"])
+    for bi, blk in enumerate(caller["blocks"]):
+        t = blk["term"]
+        if t["k"] == "call" and (t.get("callee") or "").endswith("Future::poll") and t.get("res") and norm(t["res"]) == coro_path and t["args"]:
+            pl = t["args"][0].get("move") or t["args"][0].get("copy")
+            if pl and not pl["p"] and pins.get(pl["l"]) in S:
+                return bi
+    return None
+
+
+def inline_async_one(caller, call_bi, coro):
+    """`caller` awaits the async helper whose coroutine body is `coro`: replace the poll of that future by the
+    coroutine's blocks.  The helper's parameters (the coroutine's upvars) become fresh locals assigned at the call;
+    every `return` of the coroutine becomes `poll_result = Poll::Ready(value)` followed by a goto to the block after
+    the poll, so the caller's own Ready / Pending handling stays as it is (the Pending arm is simply dead)."""
+    T = caller["blocks"][call_bi]["term"]
+    S = _future_locals(caller, T["dest"]["l"])
+    pbi = _poll_of(caller, S, norm(coro["path"]))
+    if pbi is None:
+        return False
+    P = caller["blocks"][pbi]["term"]
+    # fresh locals for the helper's parameters
+    up = {}
+    ups = {}
+    for blk in coro["blocks"]:
+        for st in blk["stmts"]:
+            for pl in _places_of_stmt(st):
+                _note_upvars(pl, ups)
+        for pl in _places_of_term(blk["term"]):
+            _note_upvars(pl, ups)
+    for k in range(len(T["args"])):
+        caller["locals"].append({"ty": ups.get(k, "?")})
+        up[k] = len(caller["locals"]) - 1
+    loff = len(caller["locals"])
+    boff = len(caller["blocks"])
+    caller["locals"] += copy.deepcopy(coro["locals"])
+
+    def lm(l):
+        return l + loff
+
+    def bm(b):
+        return b + boff
+
+    def place(pl):
+        if pl["l"] == 1:
+            ps = pl["p"]
+            i = 0
+            while i < len(ps) and ps[i] == "*":
+                i += 1
+            if i < len(ps) and isinstance(ps[i], dict) and ps[i].get("k") == "upvar" and ps[i]["f"] in up:
+                return {"l": up[ps[i]["f"]], "p": [({"idx": lm(p["idx"])} if isinstance(p, dict) and "idx" in p else copy.copy(p)) for p in ps[i + 1:]]}
+        return _place(pl, lm)
+
+    def operand(op):
+        if "copy" in op:
+            return {"copy": place(op["copy"])}
+        if "move" in op:
+            return {"move": place(op["move"])}
+        return copy.deepcopy(op)
+
+    def stmt(st):
+        if st["k"] == "assign":
+            r = dict(st)
+            r["place"] = place(st["place"])
+            rv = st["rv"]
+            nrv = {k: v for k, v in rv.items() if k not in ("a", "place")}
+            if "a" in rv:
+                nrv["a"] = [operand(a) for a in rv["a"]]
+            if "place" in rv:
+                nrv["place"] = place(rv["place"])
+            r["rv"] = nrv
+            return r
+        if st["k"] == "dead":
+            return {"k": "dead", "l": lm(st["l"])}
+        return copy.deepcopy(st)
+
+    def term(t):
+        r = dict(t)
+        for k in ("t", "unwind", "otherwise"):
+            if isinstance(t.get(k), int):
+                r[k] = bm(t[k])
+        if "arms" in t:
+            r["arms"] = [[a[0], bm(a[1])] for a in t["arms"]]
+        if "args" in t:
+            r["args"] = [operand(a) for a in t["args"]]
+        if "ops" in t:
+            r["ops"] = [operand(a) for a in t["ops"]]
+        for k in ("d", "cond", "v"):
+            if isinstance(t.get(k), dict):
+                r[k] = operand(t[k])
+        for k in ("dest", "place", "resume_arg"):
+            if isinstance(t.get(k), dict) and "l" in t[k]:
+                r[k] = place(t[k])
+        return r
+
+    for e in coro.get("dbg", []):
+        pl = e["place"]
+        caller.setdefault("dbg", []).append({"n": e["n"], "place": place(pl)})
+    cont = P.get("t")
+    for blk in coro["blocks"]:
+        nb = {"cleanup": blk.get("cleanup", False), "stmts": [stmt(x) for x in blk["stmts"]], "inl": coro["path"]}
+        t = blk["term"]
+        if t["k"] == "return":
+            nb["stmts"].append({"k": "assign", "place": copy.deepcopy(P["dest"]), "rv": {"k": "agg", "ak": "adt", "adt": "core::task::Poll", "variant": "Ready", "vi": 0, "is_enum": True, "args": "[]", "fields": ["0"], "a": [{"move": {"l": lm(0), "p": []}}]}, "sp": P.get("sp"), "expn": None, "inlined_ret": coro["path"]})
+            nb["term"] = {"k": "goto", "t": cont} if cont is not None else {"k": "unreachable"}
+        elif t["k"] == "resume":
+            nb["term"] = {"k": "goto", "t": P["unwind"]} if isinstance(P.get("unwind"), int) else {"k": "resume"}
+        elif t["k"] == "coroutine_drop":
+            nb["term"] = {"k": "unreachable"}
+        else:
+            nb["term"] = term(t)
+        if "tsp" in blk:
+            nb["tsp"] = blk["tsp"]
+        caller["blocks"].append(nb)
+    head = caller["blocks"][call_bi]
+    for k, a in enumerate(T["args"]):
+        head["stmts"].append({"k": "assign", "place": {"l": up[k], "p": []}, "rv": {"k": "use", "a": [copy.deepcopy(a)]}, "sp": T.get("sp"), "expn": None, "inlined_arg": coro["path"]})
+    head["term"] = {"k": "goto", "t": T["t"]} if T.get("t") is not None else {"k": "unreachable"}
+    head["inlined_call"] = coro["path"]
+    caller["blocks"][pbi]["term"] = {"k": "goto", "t": bm(0)}
+    # the poll result is always Ready now: cut the Pending arm (it would make the whole inlined body look like the
+    # body of the caller's await loop)
+    if cont is not None:
+        ct = caller["blocks"][cont]["term"]
+        if ct["k"] == "switch" and len(ct["arms"]) == 2 and sorted(a[0] for a in ct["arms"]) == [0, 1]:
+            caller["blocks"].append({"cleanup": False, "stmts": [], "term": {"k": "unreachable"}, "inl": coro["path"]})
+            dead = len(caller["blocks"]) - 1
+            ct["arms"] = [[a[0], a[1] if a[0] == 0 else dead] for a in ct["arms"]]
+    return True
+
+
+def _places_of_stmt(st):
+    out = []
+    if st["k"] == "assign":
+        out.append(st["place"])
+        rv = st["rv"]
+        for a in rv.get("a", []):
+            pl = a.get("copy") or a.get("move")
+            if pl:
+                out.append(pl)
+        if "place" in rv:
+            out.append(rv["place"])
+    return out
+
+
+def _places_of_term(t):
+    out = []
+    for a in t.get("args", []) + t.get("ops", []):
+        pl = a.get("copy") or a.get("move")
+        if pl:
+            out.append(pl)
+    for k in ("d", "cond", "v"):
+        if isinstance(t.get(k), dict):
+            pl = t[k].get("copy") or t[k].get("move")
+            if pl:
+                out.append(pl)
+    for k in ("dest", "place", "resume_arg"):
+        if isinstance(t.get(k), dict) and "l" in t[k]:
+            out.append(t[k])
+    return out
+
+
+def _note_upvars(pl, ups):
+    if pl["l"] != 1:
+        return
+    for p in pl["p"]:
+        if p == "*":
+            continue
+        if isinstance(p, dict) and p.get("k") == "upvar":
+            ups.setdefault(p["f"], p.get("ty", "?"))
+        break
 
 
 def _apply_renames(raw, ren):
